@@ -297,7 +297,13 @@ OBJECTS: Dict[str, Tuple[Sp, str]] = {
     "AnyC": (obj("AnyC", F("v", ANY, schema=(("max", 0), ("min_items", 1))), F("w", INT, default=V("0"))), ""),
     "NtOnce": (obj("NtOnce", F("z", newtype("Nz1", INT, min=0), default=V("0"), schema=(("min", -5),))), ""),
     "ann(nt0,looser)": (ann(newtype("Nz2", INT, min=0), min=-5), ""),
+    "set(int,max1)": (ann(st(INT), max_items=1), ""),
+    "set(int,min2)": (ann(st(INT), min_items=2), ""),
     "ann(str0,looser)": (ann(newtype("Ns0", STR, max_len=0), max_len=2), ""),
+    # the other way round: the outer level is exactly 0 (falsy), the inner one looser
+    "ann(nt-5,zero)": (ann(newtype("Nz3", INT, min=-5), min=0), ""),
+    "ann(str3,zero)": (ann(newtype("Ns3", STR, max_len=3), max_len=0), ""),
+    "NtZero": (obj("NtZero", F("z", newtype("Nz4", INT, max=5), default=V("0"), schema=(("max", 0),))), ""),
     "Inherit": (INH, INH_SRC),
     "DiscSub": (PA, INH_PLAIN_SRC),
     # a subclass used on its own whose field is the (recursive) discriminated parent
@@ -499,6 +505,9 @@ DA2 = obj("DA2", F("x", INT))
 DB2 = obj("DB2", F("x", INT), F("z", opt(INT), default=V("None")))
 LA = obj("LA", F("kind", lit("la"), default=V("'la'")), F("x", INT, default=V("0")))
 LB = obj("LB", F("kind", lit("lb", "lb2"), default=V("'lb'")), F("y", STR, default=V("''")))
+# tag fields whose Literal type carries Annotated metadata
+LAA = obj("LAA", F("kind", lit("la"), default=V("'la'"), texpr='Annotated[Literal["la"], schema(description="tag")]'), F("x", INT, default=V("0")))
+LBA = obj("LBA", F("kind", lit("lb"), default=V("'lb'"), texpr='Annotated[Literal["lb"], schema(title="t")]'), F("y", STR, default=V("''")))
 INH_DISC_SRC = """
 @discriminator("type")
 @dataclass
@@ -545,6 +554,9 @@ UNION_EXTRA: Dict[str, Tuple[Sp, str]] = {
     "u(TD,list(int))": (union(TD, lst(INT)), ""),
     "u(map(int),S2)": (union(mp(INT), S2), ""),
     "u(list(int),list(str))": (union(lst(INT), lst(STR)), ""),
+    # alternatives sharing their runtime class, told apart by their content only
+    "u(TDx,TDy)": (union(obj("TDx", F("a", INT), kind="typeddict"), obj("TDy", F("b", STR), kind="typeddict")), ""),
+    "u(list(LA),list(LB))": (union(lst(obj("LA", F("name", STR))), lst(obj("LB", F("age", INT)))), ""),
     "u(tuple(int,int),list(int))": (union(tup(INT, INT), lst(INT)), ""),
     "u(str,enum_s)": (union(STR, enum("Es", "u", "v")), ""),
     "u(enum_s,str)": (union(enum("Es", "u", "v"), STR), ""),
@@ -558,6 +570,7 @@ UNION_EXTRA: Dict[str, Tuple[Sp, str]] = {
     "disc(explicit)": (disc("kind", (("a", "DA"), ("b", "DB")), DA, DB, explicit="{'a': DA, 'b': DB}"), ""),
     "disc(partial)": (disc("kind", (("a", "DA"), ("DB", "DB")), DA, DB, explicit="{'a': DA}"), ""),
     "disc(same-shape)": (disc("type", (("DA2", "DA2"), ("DB2", "DB2")), DA2, DB2), ""),
+    "disc(annotated-literal)": (disc("kind", (("la", "LAA"), ("lb", "LBA")), LAA, LBA), ""),
     "disc(literal)": (disc("kind", (("la", "LA"), ("lb", "LB"), ("lb2", "LB")), LA, LB), ""),
     "disc(inherited)": (disc("type", (("IA", "IA"), ("IB", "IB")), IA, IB, inherited="DBase"), INH_DISC_SRC),
     "disc(inherited,plain)": (disc("type", (("PA", "PA"), ("PB", "PB")), PA, PB, inherited="DPlain"), INH_PLAIN_SRC),
